@@ -989,6 +989,7 @@ class C16:
             uf = {'minutes': 60}.get(u, u)
             i = 0
             for o in sc['obs']:
+                o.pop('rate_frac', None)          # whole-number rates only: C16 is about values that are whole multiples of the unit
                 o['start'] *= uf
                 o['duration'] *= uf
                 for n in o['wf']['nodes']:
@@ -1047,6 +1048,13 @@ class C16:
         for k in ra:
             if k in rb and abs(rb[k] * uf - ra[k]) > 1e-6:
                 out.append(O.V('C16', 'runtime_depends_on_unit', f"task {k}: {ra[k]} s with unit seconds, {rb[k]} steps x {uf} = {rb[k] * uf} s with unit {u!r}"))
+                break
+        # "per-observation data volumes do not depend on the unit": what each observation actually deposited
+        for name, ra_ in a.obs.items():
+            va = sum(x for _, x in ra_['deposits'])
+            vb = sum(x for _, x in b.obs[name]['deposits']) if name in b.obs else None
+            if vb is not None and abs(va - vb) > 1e-9:
+                out.append(O.V('C16', 'volume_depends_on_unit', f"observation {name} deposited {va} with unit seconds and {vb} with unit {u!r}"))
                 break
         # the limits the live Buffer actors apply (not only what the parser returned) are scaled by the factor as well
         for tier, attr in (('hot', 'max_ingest_data_rate'), ('cold', 'max_data_rate')):
